@@ -526,11 +526,35 @@ def _can_fail(g):
     if g.nocfg:
         return False
     isptr = g.T(g.d.get("ret")).get("k") == "ptr" if g.d.get("ret") is not None else False
+    retvars = set()
     for b, i, e in g.elements():
         if e.get("k") == "ret" and e.get("e") is not None:
-            cv = cval(e["e"])
-            if cv is not None and (cv < 0 or (cv == 0 and isptr)):
-                return True
+            # the arms of a conditional return count each
+            arms = [strip(e["e"], all_casts=True)]
+            while arms:
+                x = arms.pop()
+                if x.get("k") == "cond" and cval(x) is None:
+                    arms += [strip(x["a"], all_casts=True), strip(x["b"], all_casts=True)]
+                    continue
+                cv = cval(x)
+                if cv is not None and (cv < 0 or (cv == 0 and isptr)):
+                    return True
+                if x.get("k") == "ref" and "id" in x["d"]:
+                    retvars.add(x["d"]["id"])
+    if retvars:
+        # single exit: `ret = CODE; goto out; .. return ret` - a failure constant assigned to the returned local
+        for b, i, n in g.walk_all():
+            pairs = []
+            if n.get("k") == "bin" and n.get("op") == "=":
+                l = strip(n["a"], lvalue_to_rvalue=False)
+                if l.get("k") == "ref" and l["d"].get("id") in retvars:
+                    pairs.append(n["b"])
+            elif n.get("k") == "decl":
+                pairs += [v["init"] for v in n["vars"] if v["id"] in retvars and v.get("init") is not None]
+            for rhs in pairs:
+                cv = cval(rhs)
+                if cv is not None and (cv < 0 or (cv == 0 and isptr)):
+                    return True
     return False
 
 
@@ -924,6 +948,18 @@ def const_interface(prog):
                     if f.T(strip(a, all_casts=True).get("t")).get("k") not in ("int", "bool", "enum") and cval(a) is None:
                         continue
                     v = cval(a)
+                    if v is None:
+                        # a computed argument that the interval analysis pins to one number is that number (a loop counter after
+                        # its loop, a length assigned a constant on every path)
+                        if an is None:
+                            try:
+                                an = Analysis(prog, f).run()
+                            except Exception:
+                                an = False
+                        if an:
+                            r = an.value_at(b.id, i, a)
+                            if r is not None and r.is_const():
+                                v = r.lo
                     args.setdefault("%s#%d" % (nm, j), set()).add(int(v) if v is not None else "~")
         ent = {}
         if rets:
